@@ -1669,7 +1669,10 @@ fn cmd_check(a: &Args) -> i32 {
 
     // ---- evidence
     let wall = t0.elapsed().as_secs_f64();
-    let samples = evidence_samples(&ctx, seed);
+    let mut samples = evidence_samples(&ctx, seed);
+    if let Some(cs) = &conc_rep.sample {
+        samples.push(cs.clone());
+    }
     let pairs_both = lay
         .pair_ab
         .iter()
